@@ -582,6 +582,35 @@ def prepareStripped {β ν δ : Type} (lib : Lib β ν δ) (isSec : Obj β → B
   | (.ok b, h, s) => (if servable b then some b else none, h, s)
   | (_, h, s) => (none, h, s)
 
+/-! ### `prepareWireServe` (middleware/cache/entry_wire.go) on the skeleton of a body -/
+
+/-- RRSIG, NSEC, NSEC3. -/
+def secTypes : List Nat := [46, 47, 50]
+
+structure ServeFlags where
+  eligible : Bool
+  hasDNSSEC : Bool
+  chaseSafe : Bool
+deriving Repr, DecidableEq
+
+/-- `func prepareWireServe(body) wireServeFlags` as a function of what it
+parses out of the body: QDCOUNT, the question type, the header's 4-bit rcode
+and the record types of the answer and authority sections (the additional
+section is walked but never inspected). A body that does not parse, or does
+not carry exactly one question, gets no flag at all. -/
+def wireServeFlags (qd qtype rcode : Nat) (an ns : List Nat) : ServeFlags :=
+  if qd ≠ 1 then ⟨false, false, false⟩ else
+  let hasSec := (an ++ ns).any fun t => secTypes.contains t
+  let hasQtypeAnswer := an.contains qtype
+  let hasCNAMEAnswer := an.contains 5
+  ⟨true, hasSec, rcode == 3 || qtype == 5 || qtype == 43 || hasQtypeAnswer || !hasCNAMEAnswer⟩
+
+/-- `flags&ready == ready && flags&wireHasDNSSEC == 0` in `prepareStripped`. -/
+def ServeFlags.servable (f : ServeFlags) : Bool := f.eligible && f.chaseSafe && !f.hasDNSSEC
+
+/-- the record types `ClearDNSSEC` leaves (records whose header type agrees with their dynamic type). -/
+def stripTypes (l : List Nat) : List Nat := l.filter fun t => !secTypes.contains t
+
 /-! ### the owned transports beneath the writer (server/udp_engine.go, tcp_engine.go) -/
 
 /-- the part of `udpJob` a reply touches: the TX slab (still holding whatever
